@@ -156,7 +156,8 @@ Step(st, o) ==
          ELSE LET r == ReadLine(st.stdin, 1) IN
               Emit([st EXCEPT !.stdin = SubSeq(@, r.next, Len(@))], <<91>> \o r.text \o <<93>>)
     [] o.op = "field" ->       \* FIELD #n, w1 AS F1$, w2 AS F2$ ...
-         IF st.h[o.n].m # "random" THEN (IF st.h[o.n].m = "closed" THEN Fail(st, FileErr) ELSE Unfixed(st))
+         \* a handle that is closed or open in another mode: a file error
+         IF st.h[o.n].m # "random" THEN Fail(st, FileErr)
          \* every FIELD statement adds a list; all lists describe the record from its first byte
          ELSE LET lst == [i \in 1..Len(o.ws) |-> [w |-> o.ws[i], v |-> Blanks(o.ws[i])]] IN
               IF st.h[o.n].fld = <<>> THEN [st EXCEPT !.h[o.n].fld = lst]
@@ -166,7 +167,7 @@ Step(st, o) ==
          IF st.h[o.n].m # "random" \/ o.i > Len(st.h[o.n].fld) \/ st.h[o.n].more # <<>> THEN Unfixed(st)
          ELSE [st EXCEPT !.h[o.n].fld[o.i].v = FixLen(st.h[o.n].fld[o.i].w, o.text)]
     [] o.op = "put" ->
-         IF st.h[o.n].m # "random" THEN (IF st.h[o.n].m = "closed" THEN Fail(st, FileErr) ELSE Unfixed(st))
+         IF st.h[o.n].m # "random" THEN Fail(st, FileErr)
          ELSE LET hh == st.h[o.n]
                   \* a list may describe only the beginning of the record: those bytes are written at the record's
                   \* offset; what the rest of the record holds is not fixed (and no field shows it)
@@ -174,7 +175,7 @@ Step(st, o) ==
               IN IF Len(rec) > hh.len \/ hh.fld = <<>> \/ hh.more # <<>> THEN Unfixed(st)
                  ELSE SetFile(st, hh.name, PutRec(st.store[hh.name], hh.len, o.r, rec))
     [] o.op = "get" ->
-         IF st.h[o.n].m # "random" THEN (IF st.h[o.n].m = "closed" THEN Fail(st, FileErr) ELSE Unfixed(st))
+         IF st.h[o.n].m # "random" THEN Fail(st, FileErr)
          ELSE LET hh == st.h[o.n] IN
               IF Len(Concat(hh.fld)) > hh.len \/ hh.fld = <<>> \/ \E l \in 1..Len(hh.more) : Len(Concat(hh.more[l])) > hh.len THEN Unfixed(st)
               ELSE LET rec == GetRec(st.store[hh.name], hh.len, o.r) IN
